@@ -41,6 +41,7 @@ void harness(void)
     if (KF_C19_path_last_node_backslash == 2) __CPROVER_assume(z < L && p[z] == '/' && k == z);
     g_L = L;
     g_k = k;
+    g_n = 0;
     g_strlen_k = k; g_strlen_ps = 0; g_strlen_pr = 0;
 
     const char *r = path_last_node(p);
